@@ -664,8 +664,10 @@ class G:
         lines += ["  @classmethod", "  def make(cls):",
                   "    return %s" % self.expr({}, "int", 1)]
         info["methods"]["make"] = ([], "int")
+    nested_uses = []
     if self.cfg.nested and self.chance(25):
-      lines += self.nested_class(indent="  ", depth=1)
+      lines += self.nested_class(indent="  ", depth=1, path=name,
+                                 uses=nested_uses)
     if self.chance(30):
       # special methods (some are implicitly class/static methods)
       self.features.add("dunder")
@@ -675,16 +677,29 @@ class G:
     if len(lines) == 1:
       lines.append("  pass")
     self.classes.append(info)
+    # module-level uses of the nested classes (reached through the class)
+    for qual, has_init, meths in nested_uses:
+      o = self.fresh("n")
+      env[o] = "Any"
+      lines.append("%s = %s(%s)" % (
+          o, qual, self.expr({}, self.some_kind(0, False), 1)
+          if has_init else ""))
+      for m in meths:
+        r = self.fresh("r")
+        env[r] = "Any"
+        lines.append("%s = %s.%s()" % (r, o, m))
     return lines
 
-  def nested_class(self, indent, depth):
+  def nested_class(self, indent, depth, path="", uses=None):
     """A class nested in a class (optionally generic, optionally one more
     level); its name may coincide with a module-level class."""
     self.features.add("nested-class")
     if self.classes and self.chance(25):
-      name = self.pick(self.classes)["name"]      # shadows a module-level class
+      shadowed = self.pick(self.classes)
+      name = shadowed["name"]                     # shadows a module-level class
       self.features.add("nested-class-shadows-module-class")
     else:
+      shadowed = None
       name = self.fresh("N")
     generic = self.chance(35)
     if generic:
@@ -704,8 +719,26 @@ class G:
                 "%s  return self.z" % ind if not ret else "%s  return self.q" % ind]
       if ret and "self.q = q" not in "\n".join(lines):
         lines[-1] = "%s  return None" % ind
+    meths = []
+    has_init = any("def __init__" in l for l in lines)
+    if "def get(self)" in "\n".join(lines):
+      meths.append("get")
+    if self.chance(50):
+      lines += ["%sdef me(self):" % ind, "%s  return self" % ind]
+      meths.append("me")
+    if self.chance(40):
+      lines += ["%sdef mk(self):" % ind, "%s  return [type(self), self]" % ind]
+      meths.append("mk")
+    if shadowed is not None and not shadowed["init_params"]:
+      # inside a method the bare name is the *module-level* class
+      self.features.add("nested-method-returns-shadowed-module-class")
+      lines += ["%sdef up(self):" % ind, "%s  return %s()" % (ind, name)]
+      meths.append("up")
+    if uses is not None and path:
+      uses.append(("%s.%s" % (path, name), has_init, meths))
     if depth < 2 and self.chance(30):
-      lines += self.nested_class(ind, depth + 1)
+      lines += self.nested_class(ind, depth + 1, path="%s.%s" % (path, name),
+                                 uses=uses)
     return lines
 
   def generic_class_def(self, env):
